@@ -419,6 +419,15 @@ def client_checks(ctx):
                 ctx.dist["client:rejected"] += 1
                 continue
             ctx.dist["client:accepted"] += 1
+            # the per-call transport timeout (`__timeout=`) is no argument of the operation: the call is the same call
+            if rng.random() < 0.2:
+                try:
+                    env_t = wsdlkit.envelope_bytes(c_ns.service.f(*args, __timeout=3, **dict(kw)))
+                    if env_t != real[1]:
+                        ctx.fail("call styles send different requests", dict(inp, with_timeout=True),
+                                 env_t.decode("utf-8"), real[1].decode("utf-8"))
+                except TypeError as e:
+                    ctx.fail("client rejected a call the rule accepts", dict(inp, with_timeout=True), str(e), "accepted")
             # call styles: the same assignment passed in every positional/keyword split
             assign = {}
             for nme, a in zip(names, args):
